@@ -278,7 +278,7 @@ func (g *gen) zoneAdmit(o op) bool {
 	if g.zonePct == 0 {
 		return false
 	}
-	pct := map[string]int{"reattach": g.zonePct, "d17": 10 * g.zonePct, "d21": 10 * g.zonePct, "d35": 6 * g.zonePct, "d36": 8 * g.zonePct, "d03": 8 * g.zonePct}[z]
+	pct := map[string]int{"reattach": g.zonePct, "d35": 6 * g.zonePct, "d36": 8 * g.zonePct, "d03": 8 * g.zonePct}[z]
 	return g.r.chance(pct)
 }
 
